@@ -44,6 +44,14 @@ CHECKS = {
    design_ref="DESIGN.md §4 C13",
    note="Trusted: Kani 0.68/CBMC 6.11; stub RandomState::new -> constant. Bound: 2^48 mintings per worker.",
  ),
+ "C19": dict(
+   engine="E1 SQVM (z3, bit-vectors)",
+   technique="symbolic execution of the compiled std/dict.qv with the keys' 32-bit hashes as free bit-vector variables; per-path SMT obligations against a finite-map model; FNV-1a pre-image search + native replay of models",
+   category="model_checking",
+   text="For every history shape of put/remove over up to k distinct keys and L operations (quick k=2,L=3; thorough k=3,L=4) a driver compiled by the real compiler performs the history and returns every observation; the solver decides, for EVERY assignment of 32-bit hashes to the keys (all partial and full collisions) and all stored values, that get/has?/count/entries on every version (queried after later operations: persistence) equal the finite map's, and that versions with equal contents are structurally equal (canonical shape). History shapes are enumerated exhaustively up to the bound; hashes and values are decided symbolically.",
+   design_ref="DESIGN.md §4 C19",
+   note="Trusted: SQVM semantics + 64-bit bitwise builtin models (validated against the real executor), z3. __binary_hash32__ is uninterpreted (its implementation is C12's subject). Keys are binaries; Str keys not driven. Longer histories / more keys are outside the bound.",
+ ),
 }
 
 NOT_APPLICABLE = {
